@@ -117,7 +117,7 @@ func (m ImportMatcher) matchSpec(spec *ast.ImportSpec, d data.Data) (_ data.Data
 			Unnamed: true,
 		})
 
-		d = data.WithValue(d, importKey(m.Path), importData{
+		d = data.WithValue(d, m.key(), importData{
 			Name:       m.NameS,
 			MetavarKey: importMetavarKey(m.NameS),
 		})
@@ -127,7 +127,7 @@ func (m ImportMatcher) matchSpec(spec *ast.ImportSpec, d data.Data) (_ data.Data
 			Name:    m.NameS,
 		}), d, nodeRegion(spec))
 	} else {
-		d = data.WithValue(d, importKey(m.Path), importData{Name: spec.Name.Name})
+		d = data.WithValue(d, m.key(), importData{Name: spec.Name.Name})
 
 		// Both are named. Match as-is and also associate the package
 		// name with the import path so that we can delete it later.
@@ -142,7 +142,16 @@ type importMetavarKey string
 
 type importMetavarData struct{ Unnamed bool }
 
-type importKey string // import path
+// importKey identifies an import of the patch: a patch may list the same
+// path more than once, under different names.
+type importKey struct {
+	Path string // import path
+	Name string // name of the import in the patch, if any
+}
+
+func (m ImportMatcher) key() importKey {
+	return importKey{Path: m.Path, Name: m.NameS}
+}
 
 type importData struct {
 	Name string // package name of the import
@@ -166,14 +175,14 @@ func (c *matcherCompiler) compileImports(imps []*ast.ImportSpec) ImportsMatcher 
 
 // Match matches a block of imports in a file.
 func (m ImportsMatcher) Match(file *ast.File, d data.Data) (_ data.Data, ok bool) {
-	matchedImports := make([]string, 0, len(m.Imports))
+	matchedImports := make([]importKey, 0, len(m.Imports))
 	for _, m := range m.Imports {
 		d, ok = m.Match(file, d)
 		if !ok {
 			return d, false
 		}
 
-		matchedImports = append(matchedImports, m.Path)
+		matchedImports = append(matchedImports, m.key())
 	}
 
 	return data.WithValue(d, importsKey, importsData{
@@ -186,7 +195,7 @@ type _importsKey string
 var importsKey _importsKey
 
 type importsData struct {
-	MatchedImports []string // import paths
+	MatchedImports []importKey
 }
 
 // ImportReplacer replaces imports in a file.
@@ -314,10 +323,12 @@ func (r ImportsReplacer) Cleanup(d data.Data, f *ast.File, newNames []string) er
 	}
 
 	// Delete matched imports that are no longer used.
-	for _, imp := range impData.MatchedImports {
+	for _, key := range impData.MatchedImports {
+		imp := key.Path
+
 		var importName, pkgName string
 
-		if idata := new(importData); data.Lookup(d, importKey(imp), idata) {
+		if idata := new(importData); data.Lookup(d, key, idata) {
 			pkgName = idata.Name
 			importName = idata.Name
 
